@@ -89,10 +89,12 @@ func (d *jsonDecoder) cutFieldsBySize(data []byte) []byte {
 			return jsonCutPos{}, false
 		}
 
-		// [v.Index] is value start position including quote (")
+		// [v.Index] is value start position including quote (").
+		// The positions are computed on the literal as written ([v.Raw]),
+		// so that the cut never splits an escape sequence.
 		return jsonCutPos{
-			start: v.Index + limit + 1,
-			end:   v.Index + len(v.Str),
+			start: v.Index + jsonRawCutPoint(v.Raw, limit),
+			end:   v.Index + len(v.Raw) - 2,
 		}, true
 	}
 
@@ -130,6 +132,27 @@ func (d *jsonDecoder) cutFieldsBySize(data []byte) []byte {
 	}
 
 	return data
+}
+
+// jsonRawCutPoint returns the offset in raw (a JSON string literal as written,
+// quotes included) at which the literal can be cut so that at most limit bytes
+// of its content are kept and no escape sequence is split.
+func jsonRawCutPoint(raw string, limit int) int {
+	i := 1
+	for i < len(raw)-1 {
+		n := 1
+		if raw[i] == '\\' {
+			n = 2
+			if i+1 < len(raw) && raw[i+1] == 'u' {
+				n = 6
+			}
+		}
+		if i-1+n > limit {
+			break
+		}
+		i += n
+	}
+	return i
 }
 
 func extractJsonParams(params Params) (jsonParams, error) {
